@@ -1428,3 +1428,89 @@ Proof.
   destruct (fstep P st ev) as [st1| |] eqn:E; [|by apply IH|done].
   apply IH. by eapply fstep_time_ok.
 Qed.
+
+(** * Part 4: what a scheduling round does (decision level, any scheduler context) *)
+Section Rounds.
+Context (P : params) (C : sctx).
+
+Lemma has_restore_nil c : has_restore P C c = false ↔ restore_set P C c = [].
+Proof. unfold has_restore. destruct (restore_set P C c); split; intros H; done. Qed.
+
+(* level-triggered: every view entry that needs work gets its request in EVERY allowed batch *)
+Lemma round_acts b c :
+  allowed P C (OBatch b) = true → c ∈ entries C →
+  (has_restore P C c = true ∨ repair_action P C c ≠ ANone) →
+  ∃ q, q ∈ b ∧ q_shard q = s_id c ∧ is_kill q = false.
+Proof.
+  cbn [allowed]. intros Ha Hc Hneed. apply andb_true_iff in Ha as [Hpre _].
+  unfold pre_allowed in Hpre. set (npre := (length b - length (kills C))%nat) in *.
+  repeat (apply andb_true_iff in Hpre as [Hpre ?]).
+  rename H into Hgroups, H3 into Hnokill.
+  rewrite forallb_forall in Hgroups. pose proof (Hgroups c) as Hg. rewrite <- elem_of_list_In in Hg. specialize (Hg Hc).
+  assert (Hne : group_of c (take npre b) ≠ []).
+  { intros Hnil. rewrite Hnil in Hg. unfold group_allowed in Hg. destruct (has_restore P C c) eqn:Hr.
+    - destruct (c_defs C !! s_id c); [|done]. unfold restore_group_ok in Hg. apply bool_decide_eq_true in Hg as [Hperm _].
+      cbn in Hperm. symmetry in Hperm. apply Permutation_nil_r in Hperm. apply fmap_nil_inv in Hperm.
+      apply has_restore_nil in Hperm. congruence.
+    - destruct Hneed as [?|Hact]; [done|]. destruct (repair_action P C c); done. }
+  destruct (group_of c (take npre b)) as [|q g] eqn:Eg; [done|].
+  assert (Hq : q ∈ group_of c (take npre b)) by (rewrite Eg; left).
+  unfold group_of in Hq. apply elem_of_list_filter in Hq as [Hs Hq].
+  exists q. split; [|split; [done|]].
+  - rewrite <- (take_drop npre b). apply elem_of_app. by left.
+  - rewrite forallb_forall in Hnokill. pose proof (Hnokill q) as Hk. rewrite <- elem_of_list_In in Hk.
+    specialize (Hk Hq). by apply negb_true_iff in Hk.
+Qed.
+
+(* quiescence: when Drummer's view shows every member healthy and the kill list is empty, the one and only
+   allowed outcome of a round is the empty batch *)
+Definition view_healthy : Prop :=
+  c_kill C = [] ∧ ∀ c, c ∈ entries C → n_failed P C c = 0%nat ∧ n_wait P C c = 0%nat.
+
+Lemma healthy_entry c : view_healthy → c ∈ entries C → has_restore P C c = false ∧ repair_action P C c = ANone.
+Proof.
+  intros [_ Hall] Hc. destruct (Hall c Hc) as [Hf Hw]. split.
+  - apply has_restore_nil.
+    assert (Hnil : sr_failed P C c = []) by (by apply length_zero_iff_nil).
+    unfold restore_set, restorable. rewrite Hnil. cbn. by destruct (need_restore P C c); [destruct (bool_decide _)|].
+  - unfold repair_action, in_repair. rewrite Hf, Hw. by rewrite !bool_decide_eq_true_2.
+Qed.
+
+Lemma quiescent_round o : view_healthy → allowed P C o = true → o = OBatch [].
+Proof.
+  intros Hh Ha. pose proof Hh as [Hk Hall].
+  assert (Hkills : kills C = []) by (unfold kills; by rewrite Hk).
+  destruct o as [b| |]; cbn [allowed] in Ha.
+  - f_equal. apply andb_true_iff in Ha as [Hpre _]. unfold pre_allowed in Hpre. rewrite Hkills in Hpre. cbn [length] in Hpre.
+    rewrite Nat.sub_0_r, firstn_all, drop_all in Hpre.
+    repeat (apply andb_true_iff in Hpre as [Hpre ?]).
+    rename H into Hgroups, H2 into Hshards. apply bool_decide_eq_true in Hshards.
+    destruct b as [|q b]; [done|]. exfalso.
+    rewrite Forall_forall in Hshards. pose proof (Hshards q) as Hs. specialize (Hs ltac:(left)).
+    apply elem_of_list_fmap in Hs as (c & Hsc & Hc).
+    rewrite forallb_forall in Hgroups. pose proof (Hgroups c) as Hg. rewrite <- elem_of_list_In in Hg. specialize (Hg Hc).
+    destruct (healthy_entry c Hh Hc) as [Hr Hact]. unfold group_allowed in Hg. rewrite Hr, Hact in Hg.
+    apply bool_decide_eq_true in Hg. unfold group_of in Hg.
+    assert (q ∈ filter (λ q0, q_shard q0 = s_id c) (q :: b)) as Hin by (apply elem_of_list_filter; split; [done|left]).
+    rewrite Hg in Hin. by apply elem_of_nil in Hin.
+  - exfalso. apply andb_true_iff in Ha as [_ Ha]. rewrite existsb_exists in Ha. destruct Ha as (c & Hc & He).
+    apply elem_of_list_In in Hc. destruct (healthy_entry c Hh Hc) as [_ Hact]. unfold err_entry in He. by rewrite Hact in He.
+  - exfalso. apply orb_true_iff in Ha as [Ha|Ha]; [apply orb_true_iff in Ha as [Ha|Ha]|].
+    + unfold restore_crash in Ha. rewrite existsb_exists in Ha. destruct Ha as (c & Hc & He).
+      apply elem_of_list_In in Hc. destruct (healthy_entry c Hh Hc) as [Hr _]. by rewrite Hr in He.
+    + rewrite existsb_exists in Ha. destruct Ha as (c & Hc & He).
+      apply elem_of_list_In in Hc. destruct (healthy_entry c Hh Hc) as [_ Hact]. unfold crash_entry in He. by rewrite Hact in He.
+    + apply andb_true_iff in Ha as [_ Ha]. unfold may_invalid in Ha. rewrite Hkills in Ha. cbn [existsb orb] in Ha.
+      rewrite existsb_exists in Ha. destruct Ha as (c & Hc & He).
+      apply elem_of_list_In in Hc. destruct (healthy_entry c Hh Hc) as [Hr Hact]. unfold entry_may_invalid in He.
+      by rewrite Hr, Hact in He.
+Qed.
+End Rounds.
+
+(* in the closed loop: a round in such a state issues no request and changes nothing *)
+Lemma quiescent_step P st o st' :
+  view_healthy P (ctx_of_db (f_db st)) → fstep P st (ESchedule o) = FOk st' → o = OBatch [] ∧ st' = st.
+Proof.
+  intros Hh. cbn [fstep]. destruct (allowed P (ctx_of_db (f_db st)) o) eqn:Ha; [|done].
+  apply (quiescent_round P _ o Hh) in Ha as ->. by intros [= <-].
+Qed.
